@@ -16,7 +16,7 @@ machine-checked counterexample for the pinned code and the theorems for what doe
 namespace PikaVerif.C13m
 open PikaVerif PikaVerif.Join PikaVerif.C13
 
-theorem _root_.PikaVerif.C13.Reachable.own {s : St} (h : Reachable s) : OwnInv s := by
+theorem own_of_reachable {s : St} (h : Reachable s) : OwnInv s := by
   obtain ⟨log, hl⟩ := h
   exact own_of_accepted hl
 
@@ -25,8 +25,8 @@ theorem _root_.PikaVerif.C13.Reachable.own {s : St} (h : Reachable s) : OwnInv s
 /-- **At most one handle refers to a thread**, at any time, whatever moves / swaps / joins happened. -/
 theorem C13m_unique_owner (s : St) (hr : Reachable s) (h1 h2 o : Nat)
     (a : s.hid h1 = some o) (b : s.hid h2 = some o) : h1 = h2 := by
-  have ha := hr.own.ownHid h1 o a
-  have hb := hr.own.ownHid h2 o b
+  have ha := (own_of_reachable hr).ownHid h1 o a
+  have hb := (own_of_reachable hr).ownHid h2 o b
   rw [ha] at hb
   exact Option.some.inj hb
 
@@ -36,7 +36,7 @@ theorem C13m_unique_owner (s : St) (hr : Reachable s) (h1 h2 o : Nat)
     `C13m_start_owns`: from its creation to its release a thread has exactly one owner. -/
 theorem C13m_owner_kept (s s' : St) (e : Ev) (hr : Reachable s) (hs : step s e = some s') (h o : Nat)
     (ho : s.hid h = some o) : (∃ h', s'.hid h' = some o) ∨ Releases h e := by
-  have hi := hr.own
+  have hi := own_of_reachable hr
   have hr' : Reachable s' := by
     obtain ⟨log, hl⟩ := hr
     exact ⟨log ++ [e], by rw [runLog_append, hl]; simp [runLog, hs]⟩
@@ -44,13 +44,13 @@ theorem C13m_owner_kept (s s' : St) (e : Ev) (hr : Reachable s) (hs : step s e =
   · left
     cases hw : s'.owner o with
     | none => rw [hw] at h1; simp at h1
-    | some h' => exact ⟨h', hr'.own.hidOwn o h' hw⟩
+    | some h' => exact ⟨h', (own_of_reachable hr').hidOwn o h' hw⟩
   · exact Or.inr h1
 
 /-- `start_thread` binds the new thread to the constructing handle; nobody owned it before. -/
 theorem C13m_start_owns (s s' : St) (hr : Reachable s) (h o p : Nat) (hs : step s (.start h o p) = some s') :
     s'.hid h = some o ∧ s.hid h = none ∧ ∀ h', s.hid h' ≠ some o := by
-  have hi := hr.own
+  have hi := own_of_reachable hr
   simp only [step] at hs
   split at hs
   · rename_i hg
@@ -230,6 +230,194 @@ theorem C13m_jthread_moved_from_skips (s s' : St) (h h1 : Nat) (o : Option Nat)
   intro ho
   rw [ho] at g2
   simp [step, g3, ← g2]
+
+
+/-! ## Interruption of a task that is blocked inside `thread::join`
+
+`thread::join` suspends with `this_thread::suspend(suspended)`, which tests for an interruption before
+and after the context switch; `interrupt()` on the joiner sets the request and wakes it
+(`set_thread_state(pending, abort)`), so a joiner blocked in `join` is interrupted there: the exception
+leaves `join` before `detach_locked()` (the handle stays joinable).  **The callback
+`resume_thread(joiner)` that `join` registered on the target is not withdrawn** (and holds the raw, not
+reference-counted id of the joiner).  `IJ` is the model of exactly this protocol for one joiner task
+and any number of targets, following the code as it is. -/
+namespace IJ
+
+inductive JSt where
+  | idle                       -- running user code (outside join)
+  | waiting (o a : Nat)        -- suspended in `join` on target `o`, attempt number `a`
+  deriving DecidableEq, Repr
+
+structure St where
+  j : JSt := .idle
+  att : Nat := 0                        -- number of join attempts started
+  running : Nat → Bool := fun _ => true -- the target's thread function has not returned
+  cb : Nat → Bool := fun _ => false     -- the joiner's exit callback is registered on the target
+  joinable : Nat → Bool := fun _ => true -- the target's handle
+  tok : Nat := 0                        -- wake-ups aimed at the joiner and not yet consumed
+  req : Bool := false                   -- `requested_interrupt_` of the joiner
+  completed : List Nat := []            -- history: attempts that returned normally
+  abandoned : List Nat := []            -- history: attempts that ended with `thread_interrupted`
+  early : Bool := false                 -- history: a join returned while its target was still running
+
+inductive Ev where
+  | joinReg (o : Nat)      -- lock, joinable, callback accepted, unlock, suspend
+  | joinRefused (o : Nat)  -- callback refused (target done): join returns at once
+  | reqIntr                -- `interrupt()` on the joiner
+  | intr                   -- the interruption point inside `suspend` throws
+  | exit (o : Nat)         -- target `o` returns and runs its exit callbacks
+  | wake                   -- the suspension returns normally; `detach_locked()`
+  deriving Repr
+
+def step (s : St) : Ev → Option St
+  | .joinReg o =>
+    if s.j = .idle ∧ s.joinable o = true ∧ s.running o = true ∧ s.req = false then
+      some { s with j := .waiting o s.att, att := s.att + 1, cb := upd s.cb o true }
+    else none
+  | .joinRefused o =>
+    if s.j = .idle ∧ s.joinable o = true ∧ s.running o = false ∧ s.req = false then
+      some { s with att := s.att + 1, completed := s.att :: s.completed, joinable := upd s.joinable o false }
+    else none
+  | .reqIntr => some { s with req := true }
+  | .intr =>
+    match s.j with
+    | .waiting _ a => if s.req = true then
+        -- the callback stays registered (code as it is)
+        some { s with j := .idle, req := false, abandoned := a :: s.abandoned }
+      else none
+    | .idle => none
+  | .exit o =>
+    if s.running o = true then
+      some { s with running := upd s.running o false, cb := upd s.cb o false,
+                    tok := if s.cb o then s.tok + 1 else s.tok }
+    else none
+  | .wake =>
+    match s.j with
+    | .waiting o a => if 0 < s.tok ∧ s.req = false then
+        some { s with j := .idle, tok := s.tok - 1, completed := a :: s.completed,
+                      joinable := upd s.joinable o false, early := s.early || s.running o }
+      else none
+    | .idle => none
+
+def waitsOn : JSt → Nat → Bool
+  | .waiting o _, o' => o == o'
+  | .idle, _ => false
+
+def attOf : JSt → Option Nat
+  | .waiting _ a => some a
+  | .idle => none
+
+/-- invariant for "interrupted xor completed" -/
+structure Inv (s : St) : Prop where
+  cLt : ∀ x ∈ s.completed, x < s.att
+  aLt : ∀ x ∈ s.abandoned, x < s.att
+  disj : ∀ x, x ∈ s.completed → x ∈ s.abandoned → False
+  cur : ∀ a, attOf s.j = some a → a < s.att ∧ a ∉ s.completed ∧ a ∉ s.abandoned
+
+/-- invariant of the runs in which no join was interrupted -/
+structure Clean (s : St) : Prop where
+  cbWait : ∀ o, s.cb o = true → waitsOn s.j o = true ∧ s.running o = true
+  tokLe : s.tok ≤ 1
+  tokWait : s.tok = 1 → ∃ o, waitsOn s.j o = true ∧ s.running o = false
+  notEarly : s.early = false
+
+end IJ
+
+theorem IJ.inv_step (s s' : IJ.St) (e : IJ.Ev) (hi : IJ.Inv s) (hs : IJ.step s e = some s') : IJ.Inv s' := by
+  obtain ⟨h1, h2, h3, h4⟩ := hi
+  cases e <;> simp only [IJ.step] at hs <;> (repeat' split at hs) <;>
+    first
+    | (simp at hs; done)
+    | (simp only [Option.some.injEq] at hs; subst hs
+       refine ⟨?_, ?_, ?_, ?_⟩ <;> simp_all [IJ.attOf] <;> grind)
+
+theorem IJ.inv_of_accepted {log : List IJ.Ev} {s : IJ.St} (h : runLog IJ.step {} log = some s) : IJ.Inv s :=
+  inv_of_runLog IJ.Inv (fun s e s' => IJ.inv_step s s' e)
+    ⟨by simp, by simp, by simp, by simp [IJ.attOf]⟩ h
+
+/-- **The joiner either observes the interruption or completes the join, never both**: over all
+    accepted logs no join attempt is recorded both as completed and as abandoned. -/
+theorem C13m_intr_xor_complete (log : List IJ.Ev) (s : IJ.St) (h : runLog IJ.step {} log = some s) (a : Nat) :
+    ¬ (a ∈ s.completed ∧ a ∈ s.abandoned) := fun ⟨h1, h2⟩ => (IJ.inv_of_accepted h).disj a h1 h2
+
+/-- **An interrupted join leaves the handle joinable and changes nothing else** (the exception leaves
+    `join` before `detach_locked()`); in the code as it is the callback stays registered, too. -/
+theorem C13m_intr_keeps_joinable (s s' : IJ.St) (hs : IJ.step s .intr = some s') :
+    ∃ o a, s.j = .waiting o a ∧ s.req = true ∧ s'.j = .idle ∧ s'.joinable = s.joinable ∧ s'.completed = s.completed ∧
+      s'.abandoned = a :: s.abandoned ∧ s'.cb = s.cb ∧ s'.tok = s.tok := by
+  simp only [IJ.step] at hs
+  split at hs
+  · rename_i o a hj
+    split at hs
+    · rename_i hr
+      simp only [Option.some.injEq] at hs; subst hs
+      exact ⟨o, a, hj, hr, rfl, rfl, rfl, rfl, rfl, rfl⟩
+    · simp at hs
+  · simp at hs
+
+/-- the failing history, as reproduced on the real code (`e2_join 1 0 joinintr 1 --pika:threads=3`,
+    findings/C13m-interrupted-join-stale-callback.json): join on 1 interrupted, join on 2 started, 1 exits
+    and runs the callback left behind, the join on 2 returns although 2 is still running -/
+def IJ.witness : List IJ.Ev := [.joinReg 1, .reqIntr, .intr, .joinReg 2, .exit 1, .wake]
+
+/-- **Counterexample for the code as it is** (machine-checked): the exit callback left behind by an
+    interrupted join is *not* harmless — it releases a later join of the same task whose target is still
+    running.  The full statement "∀ accepted log, `early = false`" (join returns only after the thread
+    function returned, also after interrupted joins) is therefore false of the pinned tree; what holds is
+    the `_partial` below. -/
+theorem C13m_interrupted_join_stale_wake :
+    ∃ s, runLog IJ.step {} IJ.witness = some s ∧ s.early = true ∧ s.running 2 = true ∧
+      s.completed = [1] ∧ s.abandoned = [0] ∧ s.joinable 2 = false := by
+  refine ⟨_, rfl, ?_⟩
+  decide
+
+theorem IJ.clean_step (s s' : IJ.St) (e : IJ.Ev) (hne : e ≠ .intr) (hi : IJ.Clean s)
+    (hs : IJ.step s e = some s') : IJ.Clean s' := by
+  obtain ⟨h1, h2, h3, h4⟩ := hi
+  cases e <;> simp only [IJ.step] at hs <;> (repeat' split at hs) <;>
+    first
+    | (simp at hs; done)
+    | (exact absurd rfl hne)
+    | (simp only [Option.some.injEq] at hs; subst hs
+       refine ⟨?_, ?_, ?_, ?_⟩ <;> dsimp only <;> simp_all [IJ.waitsOn, upd] <;> grind [upd, IJ.waitsOn])
+
+/-- **`_partial`: without an interrupted join, join returns only after the thread function returned**
+    (logs that contain no `intr` event: every join that completed found its target finished, no wake-up
+    is left over).  FULL statement (false, see `C13m_interrupted_join_stale_wake`):
+    `∀ log s, runLog IJ.step {} log = some s → s.early = false`.  Missing: the callback of an abandoned
+    join is neither withdrawn nor made ineffective by `thread::join`. -/
+theorem C13m_join_after_exit_partial (log : List IJ.Ev) (s : IJ.St) (h : runLog IJ.step {} log = some s)
+    (hclean : ∀ e ∈ log, e ≠ .intr) : s.early = false ∧ (s.j = .idle → s.tok = 0 ∧ ∀ o, s.cb o = false) := by
+  have gen : ∀ (log : List IJ.Ev) (s0 s : IJ.St), IJ.Clean s0 → runLog IJ.step s0 log = some s →
+      (∀ e ∈ log, e ≠ .intr) → IJ.Clean s := by
+    intro log
+    induction log with
+    | nil => intro s0 s h0 h _; simp at h; exact h ▸ h0
+    | cons e es ih =>
+      intro s0 s h0 h hl
+      simp only [runLog] at h
+      cases hs : IJ.step s0 e with
+      | none => rw [hs] at h; simp at h
+      | some s1 =>
+        rw [hs] at h
+        exact ih s1 s (IJ.clean_step s0 s1 e (hl e List.mem_cons_self) h0 hs) h
+          (fun e' he' => hl e' (List.mem_cons_of_mem _ he'))
+  have hc := gen log {} s ⟨by simp, by simp, by simp, rfl⟩ h hclean
+  refine ⟨hc.notEarly, ?_⟩
+  intro hj
+  refine ⟨?_, ?_⟩
+  · have := hc.tokLe
+    have h3 := hc.tokWait
+    by_cases ht : s.tok = 1
+    · obtain ⟨o, ho, _⟩ := h3 ht
+      rw [hj] at ho; simp [IJ.waitsOn] at ho
+    · omega
+  · intro o
+    cases hcb : s.cb o with
+    | false => rfl
+    | true =>
+      have := (hc.cbWait o hcb).1
+      rw [hj] at this; simp [IJ.waitsOn] at this
 
 /-! ## Non-vacuity -/
 
